@@ -98,8 +98,14 @@ package scheduler
 //@   ensures [C04 is_running] r <==> any_running(g)
 //@   loop 0 invariant forall i int :: 0 <= i && i <= idx ==> status_at(g, i) != NodeStatusRunning
 
+// chk.fresh: the stop flag has been consulted and found clear since the last launch / execution began (C05: a stop
+// can arrive at any time from another goroutine; what the code can and must do is look again before every launch and
+// before every execution).
+//@ ghost chk.fresh bool
 //@ fn (*Scheduler).isCanceled(sc) (r)
 //@   props C04 C05 C01
+//@   modifies ghost chk.fresh
+//@   records chk.fresh = !r
 //@   ensures r <==> sc.canceled == 1
 
 //@ fn (*Scheduler).setCanceled(sc)
@@ -147,9 +153,10 @@ package scheduler
 //@      ite(iserr, StatusError, StatusSuccess))))
 
 //@ fn (*Scheduler).Status(sc, g) (s)
-//@   props C04
+//@   props C04 C05
 //@   requires nodes_wf(g)
-//@   ensures [C04 spec_status] s == spec_status(sc.canceled == 1, all_done_ok(g), g.startedAt != 0, any_running(g), sc.lastError != nil)
+//@   modifies ghost chk.fresh
+//@   ensures [C04,C05 spec_status] s == spec_status(sc.canceled == 1, all_done_ok(g), g.startedAt != 0, any_running(g), sc.lastError != nil)
 
 // ---------------------------------------------------------------------------------------------
 // The scheduling loop (role L) — sequential contracts; the rely/guarantee variant is further below.
@@ -185,7 +192,7 @@ package scheduler
 //@   modifies node.data.State, node.data.Step.CmdWithArgs, node.data.Step.Stdout, node.data.Step.Stderr, node.data.Step.Dir,
 //@            node.data.Step.Command, node.data.Step.Args, node.logFile, node.logWriter, node.stdoutFile, node.stdoutWriter,
 //@            node.stderrFile, node.stderrWriter, node.scriptFile, node.cmd, node.cancelFunc, node.outputReader, node.outputWriter, node.done,
-//@            ghost nsetup, ghost nexec, ghost execfail, ghost dirty, ghost ntear, ghost eff.exec, ghost eff.fs, ghost eff.env, heap(alloc), ghost obs.run_calls, ghost obs.run_err, ghost outvar.stores, ghost outvar.key, ghost outvar.val, ghost env.key, ghost env.val, ghost obs.buf_string
+//@            ghost nsetup, ghost nexec, ghost execfail, ghost dirty, ghost ntear, ghost eff.exec, ghost eff.fs, ghost eff.env, heap(alloc), heap(elems(string)), ghost fs.*, ghost fw.*, ghost bw.*, ghost obs.exists*, ghost obs.stat*, ghost obs.run_calls, ghost obs.run_err, ghost outvar.stores, ghost outvar.key, ghost outvar.val, ghost env.key, ghost env.val, ghost obs.buf_string
 //@   records hruns = old(hruns) + 1
 //@   records hlog = upd(old(hlog), old(hruns), node)
 //@   ensures err == nil
@@ -208,27 +215,73 @@ package scheduler
 //@ ghost dirty map[*Node]bool      // the node has executed since its resources were last torn down
 //@ ghost ntear map[*Node]int       // teardowns of a node's resources
 
+// setup opens the files of ONE attempt.  It re-arms teardown (done = false): the buffered writers created here hold
+// the attempt's output until teardown flushes them, and a retry runs setup again on a node already torn down once.
 //@ fn (*Node).setup(n, logDir, requestID) (err)
 //@   props C03 C12
-//@   trusted
-//@   modifies n.data.State.StartedAt, n.data.State.Log, n.data.State.Error, n.data.Step.CmdWithArgs, n.data.Step.Stdout,
+//@   modifies n.done, n.data.State.StartedAt, n.data.State.Log, n.data.State.Error, n.data.Step.CmdWithArgs, n.data.Step.Stdout,
 //@            n.data.Step.Stderr, n.data.Step.Dir, n.logFile, n.logWriter, n.stdoutFile, n.stdoutWriter, n.stderrFile,
-//@            n.stderrWriter, n.scriptFile, ghost nsetup, ghost eff.env, ghost eff.fs
-//@   ensures nsetup == upd(old(nsetup), n, old(nsetup[n]) + 1)
+//@            n.stderrWriter, n.scriptFile, heap(alloc), ghost nsetup, ghost eff.env, ghost env.key, ghost env.val, ghost eff.fs,
+//@            ghost fs.*, ghost fw.*, ghost obs.exists*, ghost obs.stat*
+//@   records nsetup = upd(old(nsetup), n, old(nsetup[n]) + 1)
+//@   ensures [C12 setup_rearms_teardown] !n.done
+//@   ensures [C12 log_is_opened_under_the_name_in_the_status] err == nil ==>
+//@        (n.logFile != nil && file_name(n.logFile) == n.data.State.Log && n.logWriter != nil && bw_file(n.logWriter) == n.logFile)
+//@   ensures [C12 stdout_file_is_opened_when_configured] err == nil && n.data.Step.Stdout != "" ==>
+//@        (n.stdoutFile != nil && n.stdoutWriter != nil && bw_file(n.stdoutWriter) == n.stdoutFile && n.stdoutWriter != n.logWriter)
+//@   ensures [C12 fresh_writers_have_no_flush_yet] bw.flushes == old(bw.flushes)
+
+//@ fn (*Node).setupLog(n) (err)
+//@   props C12
+//@   modifies n.logFile, n.logWriter, n.data.State.Error, heap(alloc), ghost eff.fs, ghost fs.*, ghost obs.exists*, ghost obs.stat*
+//@   ensures [C12 log_is_opened_under_the_name_in_the_status] err == nil && n.data.State.Log != "" ==>
+//@        (n.logFile != nil && file_name(n.logFile) == n.data.State.Log && n.logWriter != nil && bw_file(n.logWriter) == n.logFile &&
+//@         !wasAllocated(n.logWriter) && allocated(n.logWriter))
+
+//@ fn (*Node).setupStdout(n) (err)
+//@   props C12
+//@   modifies n.stdoutFile, n.stdoutWriter, n.data.State.Error, heap(alloc), ghost eff.fs, ghost fs.*, ghost obs.exists*, ghost obs.stat*
+//@   ensures [C12 stdout_file_is_opened_when_configured] err == nil && n.data.Step.Stdout != "" ==>
+//@        (n.stdoutFile != nil && n.stdoutWriter != nil && bw_file(n.stdoutWriter) == n.stdoutFile && !wasAllocated(n.stdoutWriter))
+//@   ensures n.data.Step.Stdout == "" ==> (err == nil && eff.fs == old(eff.fs) && n.stdoutWriter == old(n.stdoutWriter))
+
+//@ fn (*Node).setupStderr(n) (err)
+//@   props C12
+//@   modifies n.stderrFile, n.stderrWriter, n.data.State.Error, heap(alloc), ghost eff.fs, ghost fs.*, ghost obs.exists*, ghost obs.stat*
+//@   ensures err == nil && n.data.Step.Stderr != "" ==> (n.stderrFile != nil && n.stderrWriter != nil && bw_file(n.stderrWriter) == n.stderrFile)
+//@   ensures n.data.Step.Stderr == "" ==> (err == nil && eff.fs == old(eff.fs) && n.stderrWriter == old(n.stderrWriter))
+
+//@ fn (*Node).setupScript(n) (err)
+//@   props C12
+//@   modifies n.scriptFile, heap(alloc), ghost eff.fs, ghost fs.*, ghost fw.*, ghost obs.exists*, ghost obs.stat*
+//@   ensures n.data.Step.Script == "" ==> (err == nil && eff.fs == old(eff.fs) && n.scriptFile == old(n.scriptFile))
 
 // Execute: the step's outcome is the outcome of its command.  Whatever else Execute does (output capture, log
 // path export), the error it returns is the one the executor's Run returned; if no command was run it is an error.
 //@ ghost obs.run_calls int         // executor Run() calls so far
 //@ ghost obs.run_err error         // what the last Run() returned
+// setupExec wires the command's stdout and stderr.  Whatever the configuration, the log's buffered writer is a
+// destination of both streams (stderr: unless a stderr file is configured), the stdout file's writer is a destination of
+// stdout, and every destination is a library writer that accepts all bytes.
 //@ fn (*Node).setupExec(n, ctx) (cmd, err)
 //@   props C02 C11 C12
-//@   trusted
-//@   modifies n.data.Step.Command, n.data.Step.Args, n.cmd, n.cancelFunc, n.outputReader, n.outputWriter, heap(alloc), ghost eff.fs
-//@   ensures err == nil ==> cmd != nil
+//@   requires n.logWriter != nil
+//@   modifies n.data.Step.Command, n.data.Step.Args, n.cmd, n.cancelFunc, n.outputReader, n.outputWriter, heap(alloc), heap(elems(string)),
+//@            ghost eff.fs, ghost eff.exec
+//@   ensures err == nil ==> cmd != nil && n.cmd == cmd
+//@   expect calls (dag/executor.Executor).SetStdout >= 1
+//@   expect calls (dag/executor.Executor).SetStderr >= 1
+//@   assert before (dag/executor.Executor).SetStdout [C12 stdout_reaches_the_log] sink_of(arg1, n.logWriter)
+//@   assert before (dag/executor.Executor).SetStdout [C12 stdout_reaches_the_stdout_file] n.stdoutWriter != nil ==> sink_of(arg1, n.stdoutWriter)
+//@   assert before (dag/executor.Executor).SetStdout [C12 stdout_sinks_accept_every_byte] total_sink(arg1)
+//@   assert before (dag/executor.Executor).SetStderr [C12 stderr_reaches_the_log_or_the_stderr_file]
+//@        sink_of(arg1, n.logWriter) || (n.stderrWriter != nil && sink_of(arg1, n.stderrWriter))
+//@   assert before (dag/executor.Executor).SetStderr [C12 stderr_sinks_accept_every_byte] total_sink(arg1)
 
 //@ fn (*Node).Execute(n, ctx) (err)
 //@   props C02 C03 C11 C12
-//@   modifies n.data.State.Error, n.data.Step.Command, n.data.Step.Args, n.cmd, n.cancelFunc, n.outputReader, n.outputWriter, heap(alloc),
+//@   requires [C12 executes_with_an_open_log] n.logWriter != nil
+//@   modifies n.data.State.Error, n.data.Step.Command, n.data.Step.Args, n.cmd, n.cancelFunc, n.outputReader, n.outputWriter, heap(alloc), heap(elems(string)),
 //@            ghost obs.run_calls, ghost obs.run_err, ghost outvar.stores, ghost outvar.key, ghost outvar.val, ghost eff.exec, ghost eff.env, ghost eff.fs,
 //@            ghost env.key, ghost env.val, ghost obs.buf_string
 //@   records nexec = upd(old(nexec), n, old(nexec[n]) + 1)
@@ -244,26 +297,47 @@ package scheduler
 //@   ensures [C11 capture_is_exported_trimmed] outvar.stores != old(outvar.stores) ==>
 //@        (eff.env != old(eff.env) && env.key == n.data.Step.Output && env.val == trim_space(obs.buf_string))
 
+// teardown: an armed teardown (done == false) flushes the log's and the stdout file's buffered writers, syncs and closes
+// the files and disarms itself; a disarmed one does nothing.  Only an armed teardown makes the node clean again.
 //@ fn (*Node).teardown(n) (err)
 //@   props C03 C12
-//@   trusted
-//@   modifies n.done, n.data.State.Error, ghost dirty, ghost ntear, ghost eff.fs
-//@   ensures dirty == upd(old(dirty), n, false)
-//@   ensures ntear == upd(old(ntear), n, old(ntear[n]) + 1)
+//@   modifies n.done, n.data.State.Error, heap(alloc), ghost dirty, ghost ntear, ghost eff.fs, ghost fs.*, ghost bw.*
+//@   records dirty = upd(old(dirty), n, ite(old(n.done), old(dirty[n]), false))
+//@   records ntear = upd(old(ntear), n, old(ntear[n]) + 1)
+//@   ensures [C12 teardown_disarms_itself] n.done
+//@   ensures [C12 disarmed_teardown_does_nothing] old(n.done) ==> (err == nil && bw.flushes == old(bw.flushes) && eff.fs == old(eff.fs))
+//@   ensures [C12 armed_teardown_flushes_the_log] !old(n.done) && n.logWriter != nil ==> bw.flushes[n.logWriter] > old(bw.flushes[n.logWriter])
+//@   ensures [C12 armed_teardown_flushes_the_stdout_file] !old(n.done) && n.stdoutWriter != nil ==> bw.flushes[n.stdoutWriter] > old(bw.flushes[n.stdoutWriter])
+//@   loop 0 invariant forall w *bufio.Writer :: bw.flushes[w] >= old(bw.flushes[w])
+//@   loop 0 invariant idx >= 0 && n.logWriter != nil ==> bw.flushes[n.logWriter] > old(bw.flushes[n.logWriter])
+//@   loop 0 invariant idx >= 1 && n.stdoutWriter != nil ==> bw.flushes[n.stdoutWriter] > old(bw.flushes[n.stdoutWriter])
+//@   loop 0 modifies ghost bw.*
+//@   assert before (*os.File).Sync [C12 synced_file_is_the_log_or_the_stdout_file] arg0 == n.logFile || arg0 == n.stdoutFile
+//@   expect calls (*bufio.Writer).Flush >= 1
+//@   expect calls (*os.File).Sync >= 1
+//@   expect calls (*os.File).Close >= 1
 
 // dry-run gating (C03): with sc.dry none of the three touches a node, a file or a process
 //@ fn (*Scheduler).setupNode(sc, node) (err)
 //@   props C03 C12
 //@   modifies node.data.State.StartedAt, node.data.State.Log, node.data.State.Error, node.data.Step.CmdWithArgs, node.data.Step.Stdout,
 //@            node.data.Step.Stderr, node.data.Step.Dir, node.logFile, node.logWriter, node.stdoutFile, node.stdoutWriter, node.stderrFile,
-//@            node.stderrWriter, node.scriptFile, ghost nsetup, ghost eff.env, ghost eff.fs
+//@            node.stderrWriter, node.scriptFile, node.done, ghost nsetup, ghost eff.env, ghost env.key, ghost env.val, ghost eff.fs,
+//@            heap(alloc), ghost fs.*, ghost fw.*, ghost obs.exists*, ghost obs.stat*
 //@   ensures [C03 dry_no_setup] sc.dry ==> err == nil && nsetup == old(nsetup) && eff.fs == old(eff.fs) && eff.env == old(eff.env) &&
-//@        node.data.State.Error == old(node.data.State.Error)
+//@        node.data.State.Error == old(node.data.State.Error) && node.done == old(node.done)
 //@   ensures !sc.dry ==> nsetup == upd(old(nsetup), node, old(nsetup[node]) + 1)
+//@   ensures [C12 setup_rearms_teardown] !sc.dry ==> !node.done
+//@   ensures [C12 log_is_opened_under_the_name_in_the_status] !sc.dry && err == nil ==>
+//@        (node.logFile != nil && file_name(node.logFile) == node.data.State.Log && node.logWriter != nil && bw_file(node.logWriter) == node.logFile)
+//@   ensures [C12 stdout_file_is_opened_when_configured] !sc.dry && err == nil && node.data.Step.Stdout != "" ==>
+//@        (node.stdoutFile != nil && node.stdoutWriter != nil && bw_file(node.stdoutWriter) == node.stdoutFile)
 
 //@ fn (*Scheduler).execNode(sc, ctx, n) (err)
-//@   props C02 C03 C12
-//@   modifies n.data.State.Error, n.data.Step.Command, n.data.Step.Args, n.cmd, n.cancelFunc, n.outputReader, n.outputWriter, heap(alloc),
+//@   props C02 C03 C05 C12
+//@   records chk.fresh = false
+//@   requires [C12 executes_with_an_open_log] !sc.dry ==> n.logWriter != nil
+//@   modifies n.data.State.Error, n.data.Step.Command, n.data.Step.Args, n.cmd, n.cancelFunc, n.outputReader, n.outputWriter, heap(alloc), heap(elems(string)),
 //@            ghost nexec, ghost execfail, ghost dirty, ghost eff.exec, ghost eff.env, ghost eff.fs, ghost obs.run_calls, ghost obs.run_err, ghost outvar.stores, ghost outvar.key, ghost outvar.val, ghost env.key, ghost env.val, ghost obs.buf_string
 //@   ensures [C02 step_outcome_is_command_outcome] !sc.dry && obs.run_calls == old(obs.run_calls) + 1 ==> err == obs.run_err
 //@   ensures [C02 no_command_no_success] !sc.dry && obs.run_calls == old(obs.run_calls) ==> err != nil
@@ -275,9 +349,13 @@ package scheduler
 
 //@ fn (*Scheduler).teardownNode(sc, node) (err)
 //@   props C03 C12
-//@   modifies node.done, node.data.State.Error, ghost dirty, ghost ntear, ghost eff.fs
-//@   ensures [C03 dry_no_teardown] sc.dry ==> err == nil && ntear == old(ntear) && dirty == old(dirty) && eff.fs == old(eff.fs)
-//@   ensures [C12 teardown_cleans] !sc.dry ==> dirty == upd(old(dirty), node, false) && ntear == upd(old(ntear), node, old(ntear[node]) + 1)
+//@   modifies node.done, node.data.State.Error, ghost dirty, ghost ntear, ghost eff.fs, heap(alloc), ghost fs.*, ghost bw.*
+//@   ensures [C03 dry_no_teardown] sc.dry ==> err == nil && ntear == old(ntear) && dirty == old(dirty) && eff.fs == old(eff.fs) &&
+//@        node.done == old(node.done) && bw.flushes == old(bw.flushes)
+//@   ensures [C12 armed_teardown_cleans] !sc.dry ==> (node.done && ntear == upd(old(ntear), node, old(ntear[node]) + 1) &&
+//@        dirty == upd(old(dirty), node, ite(old(node.done), old(dirty[node]), false)))
+//@   ensures [C12 armed_teardown_flushes_the_log] !sc.dry && !old(node.done) && node.logWriter != nil ==> bw.flushes[node.logWriter] > old(bw.flushes[node.logWriter])
+//@   ensures [C12 armed_teardown_flushes_the_stdout_file] !sc.dry && !old(node.done) && node.stdoutWriter != nil ==> bw.flushes[node.stdoutWriter] > old(bw.flushes[node.stdoutWriter])
 
 //@ fn (*Node).setErr(n, err)
 //@   props C02 C03
@@ -319,8 +397,10 @@ package scheduler
 //@   requires [flipped_before_spawn] node.data.State.Status != NodeStatusNone
 //@   requires sc != nil
 //@   modifies *
-//@   spawn modifies ghost launch
-//@   spawn ensures launch == upd(old(launch), node, old(launch[node]) + 1)
+//@   spawn modifies ghost launch, ghost chk.fresh
+//@   spawn ensures launch == upd(old(launch), node, old(launch[node]) + 1) && !chk.fresh
+//@   assert before (*Scheduler).execNode [C05 stop_flag_is_consulted_before_every_execution] chk.fresh
+//@   ensures [C05 nothing_is_executed_once_the_stop_is_registered] old(sc.canceled) == 1 ==> (nexec == old(nexec) && eff.exec == old(eff.exec))
 //@   ensures [C03 at_most_one_execution] old(w_scope(sc, node)) ==>
 //@        (nexec == old(nexec) || nexec == upd(old(nexec), node, old(nexec[node]) + 1))
 //@   ensures [C03 one_setup_per_activation] old(!sc.dry) ==> nsetup == upd(old(nsetup), node, old(nsetup[node]) + 1)
@@ -347,6 +427,9 @@ package scheduler
 //@   ensures [C12 torn_down_after_last_execution] old(!sc.dry) ==> !dirty[node]
 //@   loop 0 invariant sc == old(sc) && node == old(node) && w_scope(sc, node) == old(w_scope(sc, node)) && sc.dry == old(sc.dry)
 //@   loop 0 invariant old(!sc.dry) ==> nsetup == upd(old(nsetup), node, old(nsetup[node]) + 1)
+//@   loop 0 invariant [stopped_before_start] old(sc.canceled) == 1 ==> (sc.canceled == 1 && nexec == old(nexec) && eff.exec == old(eff.exec))
+//@   loop 0 invariant [armed_while_dirty] old(!sc.dry) ==> (dirty[node] ==> !node.done)
+//@   loop 0 invariant [log_open_after_setup] old(!sc.dry) && setupSucceed ==> node.logWriter != nil
 //@   loop 0 invariant [a] old(w_scope(sc, node)) ==> nexec == old(nexec)
 //@   loop 0 invariant [b] old(w_scope(sc, node)) ==> node.data.State.RetryCount == old(node.data.State.RetryCount)
 //@   loop 0 invariant [c] old(w_scope(sc, node)) ==> node.data.Step.RetryPolicy == old(node.data.Step.RetryPolicy)
@@ -354,25 +437,28 @@ package scheduler
 //@   loop 0 invariant [e] old(w_scope(sc, node)) ==> (!setupSucceed ==> node.data.State.Status == NodeStatusError && sc.lastError != nil)
 
 //@ fn (*Scheduler).Schedule(sc, ctx, g, done) (err)
-//@   props C01 C02 C03 C04 C05 C11 C15
+//@   props C01 C02 C03 C04 C05 C10 C11 C15
 //@   requires nodes_wf(g) && graph_wf(g)
 //@   requires forall i int :: 0 <= i && i < len(g.nodes) ==> has(g.dict, g.nodes[i].id)
 //@   modifies sc.handlers, sc.lastError, g.startedAt, g.finishedAt, heap(Node), heap(alloc), heap(map(dag.HandlerType, *Node)),
 //@            heap(elems(string)), heap(elems(dag.Condition)),
 //@            ghost launch, ghost hruns, ghost hlog, ghost nsetup, ghost nexec, ghost execfail, ghost dirty, ghost ntear,
 //@            ghost eff.exec, ghost eff.env, ghost eff.fs, ghost eff.condfail, ghost eff.waited,
+//@            ghost fs.*, ghost fw.*, ghost bw.*, ghost obs.exists*, ghost obs.stat*, ghost chk.fresh,
 //@            ghost obs.run_calls, ghost obs.run_err, ghost outvar.stores, ghost outvar.key, ghost outvar.val, ghost env.key, ghost env.val, ghost obs.buf_string
 //@   records eff.sched = old(eff.sched) + 1
 //@   ensures [C03 scheduling_keeps_the_graph] nodes_wf(g) && graph_wf(g)
 //@   expect calls go (*Scheduler).Schedule$1 >= 1
 //@   expect calls isReady >= 1
-//@   assert before go [C01 deps_ok_at_launch]
+//@   assert before go [C01,C10 deps_ok_at_launch]
 //@        forall j int :: 0 <= j && j < len(g.to[arg0.id]) ==> dep_ok(g.dict[g.to[arg0.id][j]])
 //@   assert before go [C03 running_before_spawn] arg0.data.State.Status == NodeStatusRunning
-//@   assert before (*Node).setStatus#1 [C03 launched_from_none] arg0.data.State.Status == NodeStatusNone && arg1 == NodeStatusRunning
+//@   assert before (*Node).setStatus#1 [C03,C10 launched_from_none] arg0.data.State.Status == NodeStatusNone && arg1 == NodeStatusRunning
 //@   assert before (*Node).setStatus#1 [C15 below_limit]
 //@        sc.maxActiveRuns > 0 ==> count_running(g, len(g.nodes)) < sc.maxActiveRuns
 //@   assert before go [C05 not_canceled_at_launch] sc.canceled != 1
+//@   assert before context.WithTimeout [C05 run_deadline_is_the_configured_timeout] sc.timeout > 0 && arg1 == sc.timeout
+//@   assert before go [C05 stop_flag_is_consulted_before_every_launch] chk.fresh
 //@   assert before go [C01 launches_graph_node] arg0 == g.nodes[idx + 1]
 //@   loop 1 step [C02 precondition_failure_skips]
 //@        eff.condfail != iter(eff.condfail) ==>
@@ -381,17 +467,17 @@ package scheduler
 //@        launch == iter(launch) ||
 //@        (launch == upd(iter(launch), g.nodes[idx], iter(launch[g.nodes[idx]]) + 1) &&
 //@         iter(g.nodes[idx].data.State.Status) == NodeStatusNone)
-//@   loop 1 step [C02 only_none_nodes_are_marked]
+//@   loop 1 step [C02,C10 only_none_nodes_are_marked]
 //@        forall i int :: 0 <= i && i < len(g.nodes) ==>
 //@           (g.nodes[i].data.State.Status == iter(g.nodes[i].data.State.Status) ||
 //@            (g.nodes[i] == g.nodes[idx] && iter(g.nodes[i].data.State.Status) == NodeStatusNone))
 //@   assert before (*Scheduler).runHandlerNode [C04 handlers_after_wait] eff.waited > old(eff.waited)
 //@   assert before (*Scheduler).runHandlerNode [C04 handler_is_configured] arg2 != nil && arg2 == sc.handlers[h] && h == handlers[idx + 1]
 //@   assert before (*Scheduler).runHandlerNode [C11 handler_gets_outputs] arg2.data.Step.OutputVariables == g.outputVariables
-//@   loop 2 invariant [C04 handler_list_shape]
+//@   loop 2 invariant [C04,C05 handler_list_shape]
 //@        (len(handlers) == 1 || len(handlers) == 2) && handlers[len(handlers) - 1] == dag.HandlerOnExit &&
 //@        (len(handlers) == 2 ==> handlers[0] != dag.HandlerOnExit)
-//@   loop 2 invariant [C04 handler_matches_outcome]
+//@   loop 2 invariant [C04,C05 handler_matches_outcome]
 //@        idx == -1 ==> ((len(handlers) == 2 ==> handlers[0] == handler_for(outcome(sc, g))) &&
 //@                       (len(handlers) == 1 ==> (outcome(sc, g) == StatusNone || outcome(sc, g) == StatusRunning)))
 //@   loop 2 invariant [C04 handlers_run_in_order] hruns <= old(hruns) + idx + 1
@@ -448,6 +534,8 @@ package scheduler
 //@   safety
 //@   requires dict_wf(g) && ids_wf(g) && nodes_wf(g) && g.from != nil && g.to != nil && g.from != g.to
 //@   requires forall k int, j int :: 0 <= j && j < len(g.to[k]) ==> has(g.dict, g.to[k][j])
+//@   requires forall k int, j int :: 0 <= j && j < len(g.from[k]) ==> has(g.dict, g.from[k][j])
+//@   requires [nodes_in_dict] forall i int :: 0 <= i && i < len(g.nodes) ==> has(g.dict, g.nodes[i].id)
 //@   modifies contents(g.from), contents(g.to), heap(alloc), ghost obs.cycle, ghost obs.cycle_calls
 //@   expect calls (*ExecutionGraph).hasCycle >= 1
 //@   assert before (*ExecutionGraph).hasCycle [C14 cycle_test_sees_every_edge]
@@ -458,15 +546,18 @@ package scheduler
 //@   ensures [C01 every_dependency_is_an_edge] err == nil ==>
 //@        (forall i int, j int :: 0 <= i && i < len(g.nodes) && 0 <= j && j < len(g.nodes[i].data.Step.Depends) ==> edge_present(g, i, j))
 //@   ensures [C01 edges_point_to_nodes] forall k int, j int :: 0 <= j && j < len(g.to[k]) ==> has(g.dict, g.to[k][j])
+//@   ensures [C10 forward_edges_point_to_nodes] forall k int, j int :: 0 <= j && j < len(g.from[k]) ==> has(g.dict, g.from[k][j])
 //@   loop 0 invariant [resolved_so_far] forall i int, j int :: 0 <= i && i <= idx && 0 <= j && j < len(g.nodes[i].data.Step.Depends) ==>
 //@        (edge_present(g, i, j) && !old(name_absent(g, g.nodes[i].data.Step.Depends[j])))
 //@   loop 0 invariant [edges_to_nodes] forall k int, j int :: 0 <= j && j < len(g.to[k]) ==> has(g.dict, g.to[k][j])
+//@   loop 0 invariant [edges_from_nodes] forall k int, j int :: 0 <= j && j < len(g.from[k]) ==> has(g.dict, g.from[k][j])
 //@   loop 0 invariant obs.cycle_calls == old(obs.cycle_calls)
 //@   loop 1 invariant [resolved_so_far_outer] forall i int, j int :: 0 <= i && i <= idx0 && 0 <= j && j < len(g.nodes[i].data.Step.Depends) ==>
 //@        (edge_present(g, i, j) && !old(name_absent(g, g.nodes[i].data.Step.Depends[j])))
 //@   loop 1 invariant [resolved_so_far_inner] forall j int :: 0 <= j && j <= idx ==>
 //@        (edge_present(g, idx0 + 1, j) && !old(name_absent(g, g.nodes[idx0 + 1].data.Step.Depends[j])))
 //@   loop 1 invariant [edges_to_nodes_inner] forall k int, j int :: 0 <= j && j < len(g.to[k]) ==> has(g.dict, g.to[k][j])
+//@   loop 1 invariant [edges_from_nodes_inner] forall k int, j int :: 0 <= j && j < len(g.from[k]) ==> has(g.dict, g.from[k][j])
 //@   loop 1 invariant obs.cycle_calls == old(obs.cycle_calls)
 
 // Node identities come from a process-wide counter: every id handed out is positive and below the counter.
@@ -575,3 +666,180 @@ package scheduler
 //@ fn (*Node).Data(n) (d)
 //@   props C08
 //@   ensures d == n.data
+
+// ---------------------------------------------------------------------------------------------
+// Retry (C10): which recorded steps are reset.  A step needs a rerun when its recorded status is failed, canceled or
+// running (the record of a killed process); the walk resets such a step when it visits it, marks everything
+// downstream, and touches nothing else.  (That the walk visits every step, i.e. the closure as a whole, is decided by
+// the bounded stand-in c10_retry_closure, which runs this very function.)
+//@ pred needs_rerun(s NodeStatus) = s == NodeStatusError || s == NodeStatusCancel || s == NodeStatusRunning
+
+//@ fn (*Node).clearState(n)
+//@   props C10
+//@   modifies n.data.State
+//@   ensures [C10 reset_step_is_not_started] n.data.State.Status == NodeStatusNone && n.data.State.Error == nil &&
+//@        n.data.State.RetryCount == 0 && n.data.State.DoneCount == 0 && n.data.State.Log == ""
+
+//@ pred retry_graph_wf(g *ExecutionGraph) = nodes_wf(g) && dict_wf(g) && ids_wf(g) && graph_wf(g) &&
+//@      (forall i int :: 0 <= i && i < len(g.nodes) ==> (has(g.dict, g.nodes[i].id) && g.dict[g.nodes[i].id] == g.nodes[i])) &&
+//@      (forall k int :: has(g.dict, k) ==> (exists i int :: 0 <= i && i < len(g.nodes) && g.nodes[i] == g.dict[k])) &&
+//@      (forall k int, j int :: 0 <= j && j < len(g.from[k]) ==> has(g.dict, g.from[k][j]))
+//@ pred recorded(g *ExecutionGraph, dict map[int]NodeStatus) = forall k int :: has(g.dict, k) ==> dict[k] == old(g.dict[k].data.State.Status)
+
+//@ pred is_reset(n *Node) = n.data.State.Status == NodeStatusNone && n.data.State.Error == nil && n.data.State.RetryCount == 0 &&
+//@      n.data.State.DoneCount == 0 && n.data.State.Log == ""
+//@ pred pending(k int, s []int, lo int) = inslice(s, lo, k)
+//@ pred handled(g *ExecutionGraph, retry map[int]bool, k int) = is_reset(g.dict[k]) &&
+//@      (forall j int :: 0 <= j && j < len(g.from[k]) ==> retry[g.from[k][j]])
+// The table of steps to run again, as the walk leaves it (ghost copy of the local `retry` map).
+//@ ghost rerun map[int]bool
+//@ pred justified(g *ExecutionGraph, retry map[int]bool, dict map[int]NodeStatus, k int) = needs_rerun(dict[k]) ||
+//@      (exists p int, j int :: has(g.dict, p) && retry[p] && 0 <= j && j < len(g.from[p]) && g.from[p][j] == k)
+
+//@ fn (*ExecutionGraph).setupRetry(g) (err)
+//@   props C10
+//@   requires retry_graph_wf(g) && g.logger != nil
+//@   modifies heap(Node.data.State), heap(alloc), ghost rerun
+//@   records rerun = retry
+//@   ensures err == nil
+//@   ensures [C10 steps_are_kept_or_reset] forall k int :: has(g.dict, k) ==>
+//@        (g.dict[k].data.State == old(g.dict[k].data.State) || is_reset(g.dict[k]))
+//@   ensures [C10 rerun_set_is_closed_downstream] forall k int :: has(g.dict, k) && rerun[k] ==>
+//@        (is_reset(g.dict[k]) && (forall j int :: 0 <= j && j < len(g.from[k]) ==> rerun[g.from[k][j]]))
+//@   ensures [C10 rerun_set_is_justified] forall k int :: has(g.dict, k) && rerun[k] ==>
+//@        (needs_rerun(old(g.dict[k].data.State.Status)) ||
+//@         (exists p int, j int :: has(g.dict, p) && rerun[p] && 0 <= j && j < len(g.from[p]) && g.from[p][j] == k))
+//@   ensures [C10 only_rerun_steps_are_touched] forall k int :: has(g.dict, k) && !rerun[k] ==> g.dict[k].data.State == old(g.dict[k].data.State)
+//@   loop 0 modifies contents(dict), contents(retry)
+//@   loop 0 invariant forall i int :: 0 <= i && i <= idx ==> dict[g.nodes[i].id] == g.nodes[i].data.State.Status
+//@   loop 0 invariant forall k int :: !retry[k]
+//@   loop 1 modifies heap(alloc)
+//@   loop 1 invariant forall m int :: 0 <= m && m < len(frontier) ==> has(g.dict, frontier[m])
+//@   loop 2 modifies contents(retry), heap(Node.data.State), heap(alloc)
+//@   loop 2 invariant forall m int :: 0 <= m && m < len(frontier) ==> has(g.dict, frontier[m])
+//@   loop 2 invariant [kept_or_reset] forall k int :: has(g.dict, k) ==>
+//@        (g.dict[k].data.State == old(g.dict[k].data.State) || is_reset(g.dict[k]))
+//@   loop 2 invariant [table_is_the_record] recorded(g, dict)
+//@   loop 2 invariant [marked_is_justified] forall k int :: has(g.dict, k) && retry[k] ==> justified(g, retry, dict, k)
+//@   loop 2 invariant [unmarked_is_untouched] forall k int :: has(g.dict, k) && !retry[k] ==> g.dict[k].data.State == old(g.dict[k].data.State)
+//@   loop 2 invariant [marked_is_handled_or_pending] forall k int :: has(g.dict, k) && retry[k] ==>
+//@        (handled(g, retry, k) || pending(k, frontier, 0))
+//@   loop 3 modifies contents(retry), heap(Node.data.State), heap(alloc)
+//@   loop 3 invariant forall m int :: 0 <= m && m < len(next) ==> has(g.dict, next[m])
+//@   loop 3 invariant [kept_or_reset] forall k int :: has(g.dict, k) ==>
+//@        (g.dict[k].data.State == old(g.dict[k].data.State) || is_reset(g.dict[k]))
+//@   loop 3 invariant [table_is_the_record] recorded(g, dict)
+//@   loop 3 invariant [marked_is_justified] forall k int :: has(g.dict, k) && retry[k] ==> justified(g, retry, dict, k)
+//@   loop 3 invariant [unmarked_is_untouched] forall k int :: has(g.dict, k) && !retry[k] ==> g.dict[k].data.State == old(g.dict[k].data.State)
+//@   loop 3 invariant [marked_is_handled_or_pending] forall k int :: has(g.dict, k) && retry[k] ==>
+//@        (handled(g, retry, k) || pending(k, frontier, idx + 1) || pending(k, next, 0))
+//@   loop 4 modifies contents(retry), heap(alloc)
+//@   loop 4 invariant forall m int :: 0 <= m && m < len(next) ==> has(g.dict, next[m])
+//@   loop 4 invariant [flag_of_visited_step_is_stable] retry[frontier[idx3 + 1]] == entry(retry[frontier[idx3 + 1]])
+//@   loop 4 invariant [marked_so_far] forall j int :: 0 <= j && j <= idx ==>
+//@        (retry[frontier[idx3 + 1]] ==> retry[g.from[frontier[idx3 + 1]][j]])
+//@   loop 4 invariant [marks_only_grow] forall k int :: entry(retry[k]) ==> retry[k]
+//@   loop 4 invariant [marked_is_justified] forall k int :: has(g.dict, k) && retry[k] ==> justified(g, retry, dict, k)
+//@   loop 4 invariant [marked_is_handled_or_pending] forall k int :: has(g.dict, k) && retry[k] && k != frontier[idx3 + 1] ==>
+//@        (handled(g, retry, k) || pending(k, frontier, idx3 + 2) || pending(k, next, 0))
+//@   loop 3 step [C10 visited_step_is_reset_iff_it_needs_a_rerun]
+//@        ((iter(retry[frontier[idx]]) || needs_rerun(dict[frontier[idx]])) ==>
+//@             (is_reset(g.dict[frontier[idx]]) && retry[frontier[idx]])) &&
+//@        (!(iter(retry[frontier[idx]]) || needs_rerun(dict[frontier[idx]])) ==>
+//@             (g.dict[frontier[idx]].data.State == iter(g.dict[frontier[idx]].data.State) && !retry[frontier[idx]]))
+//@   loop 3 step [C10 rerun_propagates_downstream] retry[frontier[idx]] ==>
+//@        (forall j int :: 0 <= j && j < len(g.from[frontier[idx]]) ==> retry[g.from[frontier[idx]][j]])
+//@   loop 3 step [C10 nothing_else_is_reset] forall k int :: has(g.dict, k) && k != frontier[idx] ==>
+//@        g.dict[k].data.State == iter(g.dict[k].data.State)
+
+// A node rebuilt from a record carries exactly the recorded step and state.
+//@ fn NewNode(step, state) (n)
+//@   props C10
+//@   modifies heap(alloc)
+//@   ensures [C10 node_is_the_given_step_and_state] n != nil && !wasAllocated(n) && n.data.Step == step && n.data.State == state && n.id == 0
+
+// Retry graph (C10, C11): built from the recorded nodes, in order; recorded output variables are stored again under
+// their names and exported; then the rerun set is computed (setupRetry).
+//@ fn NewExecutionGraphForRetry$1(key, value) (r)
+//@   props C11
+//@   modifies ghost outvar.stores, ghost outvar.key, ghost outvar.val, ghost eff.env, ghost env.key, ghost env.val, heap(alloc)
+//@   ensures [C11 recorded_output_is_restored_under_its_name] isType(key, "string") && isType(value, "string") ==>
+//@        (r && outvar.stores == old(outvar.stores) + 1 && outvar.key == key && outvar.val == value &&
+//@         eff.env == old(eff.env) + 1 && env.key == asType(key, "string") &&
+//@         env.val == substr(asType(value, "string"), len(asType(key, "string")) + 1, len(asType(value, "string")) - len(asType(key, "string")) - 1))
+//@   ensures [C11 malformed_entries_are_skipped] !(isType(key, "string") && isType(value, "string")) ==>
+//@        (!r && outvar.stores == old(outvar.stores) && eff.env == old(eff.env))
+
+//@ fn NewExecutionGraphForRetry(lg, nodes) (g, err)
+//@   props C10 C11 C14
+//@   requires nextNodeID > 0 && lg != nil
+//@   requires forall i int :: 0 <= i && i < len(nodes) ==> (nodes[i] != nil && nodes[i].id == 0)
+//@   requires forall i int, j int :: 0 <= i && i < j && j < len(nodes) ==> nodes[i] != nodes[j]
+//@   modifies heap(Node.id), heap(Node.data.Step.OutputVariables), heap(Node.data.Step.Variables), heap(Node.data.Step.Preconditions),
+//@            heap(Node.data.State), heap(alloc), nextNodeID, ghost obs.cycle, ghost obs.cycle_calls, ghost rerun,
+//@            ghost outvar.stores, ghost outvar.key, ghost outvar.val, ghost eff.env, ghost env.key, ghost env.val
+//@   ensures [C14 refused_graph_is_nil] err != nil ==> g == nil
+//@   ensures [C14 accepted_only_if_acyclic] err == nil ==> (obs.cycle_calls == old(obs.cycle_calls) + 1 && !obs.cycle)
+//@   ensures [C10 retry_graph_has_the_recorded_nodes_in_order] err == nil ==>
+//@        (g != nil && retry_graph_wf(g) && len(g.nodes) == len(nodes) && (forall i int :: 0 <= i && i < len(nodes) ==> g.nodes[i] == nodes[i]))
+//@   ensures [C10 rerun_set_is_closed_downstream] err == nil ==> (forall k int :: has(g.dict, k) && rerun[k] ==>
+//@        (is_reset(g.dict[k]) && (forall j int :: 0 <= j && j < len(g.from[k]) ==> rerun[g.from[k][j]])))
+//@   ensures [C10 rerun_set_is_justified] err == nil ==> (forall i int :: 0 <= i && i < len(nodes) && rerun[nodes[i].id] ==>
+//@        (needs_rerun(old(nodes[i].data.State.Status)) ||
+//@         (exists p int, j int :: has(g.dict, p) && rerun[p] && 0 <= j && j < len(g.from[p]) && g.from[p][j] == nodes[i].id)))
+//@   ensures [C10 only_rerun_steps_are_touched] err == nil ==> (forall i int :: 0 <= i && i < len(nodes) && !rerun[nodes[i].id] ==>
+//@        nodes[i].data.State == old(nodes[i].data.State))
+//@   ensures [C10 steps_are_kept_or_reset] forall i int :: 0 <= i && i < len(nodes) ==>
+//@        (nodes[i].data.State == old(nodes[i].data.State) || is_reset(nodes[i]))
+//@   loop 0 modifies heap(Node.id), heap(Node.data.Step.OutputVariables), heap(Node.data.Step.Variables), heap(Node.data.Step.Preconditions),
+//@            heap(alloc), nextNodeID, contents(graph.dict), graph.nodes,
+//@            ghost outvar.stores, ghost outvar.key, ghost outvar.val, ghost eff.env, ghost env.key, ghost env.val
+//@   loop 0 invariant graph != nil && graph.dict != nil && graph.from != nil && graph.to != nil && graph.from != graph.to && graph.logger == lg
+//@   loop 0 invariant nextNodeID > 0
+//@   loop 0 invariant len(graph.nodes) == idx + 1 && nodes_wf(graph) && dict_wf(graph) && ids_wf(graph)
+//@   loop 0 invariant forall k int :: has(graph.dict, k) ==> (0 < k && k < nextNodeID)
+//@   loop 0 invariant forall k int :: has(graph.dict, k) ==> (exists i int :: 0 <= i && i <= idx && graph.nodes[i] == graph.dict[k])
+//@   loop 0 invariant forall k int :: !has(graph.to, k) && !has(graph.from, k)
+//@   loop 0 invariant forall i int :: 0 <= i && i <= idx ==>
+//@        (graph.nodes[i] == nodes[i] && has(graph.dict, nodes[i].id) && graph.dict[nodes[i].id] == nodes[i])
+//@   loop 0 invariant forall i int :: idx < i && i < len(nodes) ==> nodes[i].id == 0
+
+// ---------------------------------------------------------------------------------------------
+// Stop (C05).  A step is live when it has a process handle and is running, or was already told to stop (marked
+// canceled) but has not finished yet.  Every signal reaches every live step; nothing else.
+//@ pred live(n *Node) = n.cmd != nil && (n.data.State.Status == NodeStatusRunning ||
+//@      (n.data.State.Status == NodeStatusCancel && n.data.State.FinishedAt == 0))
+
+//@ fn (*Node).signal(n, sig, allowOverride)
+//@   props C05
+//@   modifies n.data.State.Status, ghost kill.count, ghost kill.exec, ghost kill.sig
+//@   ensures [C05 live_step_gets_the_stop_signal] old(live(n)) ==> (kill.count == old(kill.count) + 1 && kill.exec == n.cmd &&
+//@        ite(allowOverride && n.data.Step.SignalOnStop != "",
+//@            isType(kill.sig, "syscall.Signal") && asType(kill.sig, "syscall.Signal") == signal_num(n.data.Step.SignalOnStop), kill.sig == sig))
+//@   ensures [C05 only_live_steps_are_signalled] !old(live(n)) ==> kill.count == old(kill.count)
+//@   ensures [C05 signalled_running_step_is_marked_canceled] n.data.State.Status ==
+//@        ite(old(n.data.State.Status) == NodeStatusRunning, NodeStatusCancel, old(n.data.State.Status))
+
+// Scheduler.Signal: the stop is registered (canceled flag), and every step that does not repeat is handed the signal
+// (so every live one receives it, Node.signal); a repeating step is not signalled — it finishes its iteration and the
+// worker does not start another one (worker contract).  With a done channel it waits until nothing runs any more.
+//@ fn (*Scheduler).Signal(sc, g, sig, done, allowOverride)
+//@   props C05
+//@   requires nodes_wf(g)
+//@   modifies sc.canceled, heap(Node.data.State.Status), heap(alloc), ghost kill.count, ghost kill.exec, ghost kill.sig, ghost chk.fresh
+//@   ensures [C05 stop_is_registered] sc.canceled == 1
+//@   ensures [C05 signal_changes_running_to_canceled_only] forall i int :: 0 <= i && i < len(g.nodes) ==>
+//@        (g.nodes[i].data.State.Status == old(g.nodes[i].data.State.Status) ||
+//@         (old(g.nodes[i].data.State.Status) == NodeStatusRunning && g.nodes[i].data.State.Status == NodeStatusCancel && !g.nodes[i].data.Step.RepeatPolicy.Repeat))
+//@   ensures [C05 no_step_is_left_running_unsignalled] forall i int :: 0 <= i && i < len(g.nodes) && !g.nodes[i].data.Step.RepeatPolicy.Repeat ==>
+//@        g.nodes[i].data.State.Status != NodeStatusRunning
+//@   loop 0 invariant sc.canceled == 1
+//@   loop 0 invariant forall i int :: 0 <= i && i < len(g.nodes) ==>
+//@        (g.nodes[i].data.State.Status == old(g.nodes[i].data.State.Status) ||
+//@         (old(g.nodes[i].data.State.Status) == NodeStatusRunning && g.nodes[i].data.State.Status == NodeStatusCancel && !g.nodes[i].data.Step.RepeatPolicy.Repeat))
+//@   loop 0 invariant forall i int :: 0 <= i && i <= idx && !g.nodes[i].data.Step.RepeatPolicy.Repeat ==> g.nodes[i].data.State.Status != NodeStatusRunning
+//@   loop 0 step [C05 live_step_is_signalled_with_the_stop_signal] !g.nodes[idx].data.Step.RepeatPolicy.Repeat && iter(live(g.nodes[idx])) ==>
+//@        (kill.count == iter(kill.count) + 1 && kill.exec == g.nodes[idx].cmd &&
+//@         ite(allowOverride && g.nodes[idx].data.Step.SignalOnStop != "",
+//@             isType(kill.sig, "syscall.Signal") && asType(kill.sig, "syscall.Signal") == signal_num(g.nodes[idx].data.Step.SignalOnStop), kill.sig == sig))
+//@   loop 0 step [C05 repeating_step_is_not_signalled] g.nodes[idx].data.Step.RepeatPolicy.Repeat ==> kill.count == iter(kill.count)
